@@ -37,6 +37,10 @@ def handle_c10(req):
         D = np.array(req["D"], dtype=np.float64).reshape(len(req["D"]), -1)
         if req.get("dtype", "float64") != "float64":
             D = D.astype(req["dtype"])
+        elif req.get("layout", "c") != "c":
+            from sim.common import lay_out
+
+            D = lay_out(D, req["layout"])[1]
         Y = np.array(req["Y"], dtype=np.int64)
         tr, un, te = req["train"], req["unl"], req["test"]
         stage = "fit"
